@@ -176,6 +176,23 @@ def gen_config(rng, quick, it):
             'policy': rng.choice(['inorder', 'reverse', 'random']), 'seed': it}
 
 
+def overdecomposed_configs(rng, n):
+    """fewer points than processes along one to three dimensions (ranks owning empty blocks in some or all layouts, possibly on
+    different process axes), headed by the F15 corpus: the standard layouts over-decomposed on both process axes"""
+    L4 = {'flux_surface': [0, 3, 1, 2], 'v_parallel': [0, 2, 1, 3], 'poloidal': [3, 2, 1, 0]}
+    nm = list(L4)
+    out = [{'nprocs': nprocs, 'ext': ext, 'layouts': L4, 'dtype': 'int64',
+            'pairs': [(a, b, ub) for a in nm for b in nm if a != b for ub in (False, True)]}
+           for ext, nprocs in (([1, 2, 1, 4], [2, 2]), ([3, 2, 3, 8], [4, 4]), ([2, 3, 1, 3], [3, 2]))]
+    for it in range(n):
+        cfg = gen_config(rng, True, it)
+        cfg['ext'] = list(cfg['ext'])
+        for _ in range(rng.choice([1, 2, 3])):
+            cfg['ext'][rng.randrange(len(cfg['ext']))] = rng.choice([1, 1, 2])
+        out.append(cfg)
+    return out
+
+
 def standard_configs():
     """the layouts the driver and the tests really use, on grids with leading extent 1 and uneven splits"""
     L4 = {'flux_surface': [0, 3, 1, 2], 'v_parallel': [0, 2, 1, 3], 'poloidal': [3, 2, 1, 0]}
@@ -240,6 +257,9 @@ def run(chk):
     quick = chk.quick()
     cfgs = standard_configs()
     cfgs += [gen_config(chk.rng, quick, it) for it in range(chk.n(110, 1500))]
+    od = overdecomposed_configs(chk.rng, chk.n(25, 300))
+    chk.count('over-decomposed configurations (some ranks own empty blocks)', len(od))
+    cfgs += od
     if chk.replay:
         import json
         c = json.load(open(chk.replay))['case']
@@ -267,7 +287,7 @@ def run(chk):
         chk.notes['exhaustive_box'] = 'rank<=3, extents<=4, all grids<=6 ranks, all compatible permutation pairs: %d handlers' % len(ex)
     chk.traces_validated = len(cfgs)
     chk.assumptions = ['MPI Alltoall semantics as implemented by the simulated MPI (chunk q of rank r goes to chunk r of rank q)',
-                       'process counts 1 <= P_k <= extent (C02 quantifier); P_k > extent is not part of the claim']
+                       'process counts P_k > extent (ranks owning empty blocks) are included since the repair of F15']
 
     def search():
         # the generated cases already ran the oracle on the real code; a wider seeded sample of the classes most exposed
